@@ -418,6 +418,45 @@ func (d *driver) hammer(st *Step) {
 	}
 }
 
+// storm: cookie-less requests for every filter of the configuration answered truly in parallel (six clients per filter, st.D
+// requests each): every login redirect must carry its own filter's parameters, whatever else is being answered at the moment.
+func (d *driver) storm(st *Step) {
+	d.parallel = true
+	d.orphan = &checkRun{id: "orphan", n: 0, f: d.env.spec.Filters[0].Name}
+	defer func() { d.parallel = false }()
+	var wg sync.WaitGroup
+	begin := make(chan struct{})
+	for fi := range d.env.spec.Filters {
+		f := d.env.spec.Filters[fi]
+		for g := 0; g < 6; g++ {
+			wg.Add(1)
+			go func(f FilterSpec, g int) {
+				defer wg.Done()
+				<-begin
+				for k := 0; k < st.D; k++ {
+					next := Step{Op: "check", B: fmt.Sprintf("s-%s-%d-%d", f.Name, g, k), F: f.Name, Kind: "app", Cookie: "none", URL: (g + k) % len(urlPool), Ans: st.Ans}
+					d.big.Lock()
+					c, req := d.prepare(&next)
+					d.big.Unlock()
+					func() {
+						defer func() {
+							if r := recover(); r != nil {
+								c.pan, c.stack = r, string(debug.Stack())
+							}
+						}()
+						c.resp, c.err = d.env.filter.Check(context.WithValue(context.Background(), checkKey{}, c), req)
+					}()
+					d.big.Lock()
+					d.finishCheck(c)
+					d.big.Unlock()
+				}
+			}(f, g)
+		}
+	}
+	close(begin)
+	wg.Wait()
+}
+
 func (d *driver) setSecret(name, value string) error {
 	e := d.env
 	if e.kube == nil {
@@ -560,6 +599,8 @@ func (d *driver) runScenario(sc *Scenario) (err error) {
 			d.parallelFlows(st)
 		case "hammer":
 			d.hammer(st)
+		case "storm":
+			d.storm(st)
 		case "secret":
 			// the Kubernetes Secret st.F gets the value st.Value and the controller reconciles it
 			if err := d.setSecret(st.F, st.Value); err != nil {
